@@ -42,7 +42,9 @@ Definition of_res (r : res (list Z)) : out :=
   | OutOfFuel => Crashed "fuel"
   end.
 
-(* ---- Metacommand.compile_insn --------------------------------------------------------------- *)
+(* ---- Metacommand.compile_insn ---------------------------------------------------------------
+   Operands are evaluated numeric expressions (never a code block: the code-block branches of compile_insn
+   are outside this model). *)
 Definition find_meta (name : string) : option meta :=
   find (fun m => String.eqb (m_name m) name || existsb (String.eqb name) (m_aliases m)) meta_table.
 
@@ -252,15 +254,19 @@ Definition bk_enc (s : list N) : option (list Z) :=
 (* ---- quoted_string / string_escape of parser.py ------------------------------------------------
    [scan q st acc ds text]: the text after the opening quote [q], read one character at a time.
    States mirror the control flow of string_escape:
-     SNorm     between characters of the string
-     SBack     a backslash was read
-     SXws      backslash x was read; Context.skip_whitespace is running (the regex is created with the
-               default skip_whitespace_before=True), which also skips ';' comments to the end of line
-     SXcomment inside such a comment
-     SXhex d   one hex digit (value d) was read
+     SNorm      between characters of the string
+     SBack      a backslash was read
+     SXws       backslash x was read; Context.skip_whitespace is running (the regex is created with the
+                default skip_whitespace_before=True), which also skips ';' comments to the end of line
+     SXcomment  inside such a comment
+     SXhex ch d one hex digit (character ch, value d) was read
+   When the two hex digits are not there, "invalid-escape" is reported, the escape yields nothing and
+   reading resumes at the first character that is neither blank nor comment (the position the failed
+   regex left behind): that character -- and the lone hex digit before it -- are ordinary characters.
    Results: the string, the identifiers reported, the text after the closing quote; or the critical
-   "unterminated-string"; or the Python exception the code dies with. *)
-Inductive sstate := SNorm | SBack | SXws | SXcomment | SXhex (d : N).
+   "unterminated-string" (after the identifiers reported so far); [ScanCrash] is kept for a Python
+   exception (none is reachable in the current source). *)
+Inductive sstate := SNorm | SBack | SXws | SXcomment | SXhex (ch d : N).
 Inductive scan_out :=
 | ScanOk (value : list N) (ds : list string) (rest : list N)
 | ScanUnterminated (ds : list string)
@@ -282,20 +288,23 @@ Definition hex_val (c : N) : option N :=
 Definition esc_lower (c : N) : N :=
   if (c =? 78) || (c =? 82) || (c =? 84) || (c =? 88) then c + 32 else c.
 
+Definition bad_escape : list string := ["invalid-escape"%string].
+
 Fixpoint scan (q : N) (st : sstate) (acc : list N) (ds : list string) (text : list N) : scan_out :=
   match text with
   | [] =>
       match st with
       | SNorm => ScanUnterminated ds
-      | SBack => ScanCrash "AttributeError: None.lower()" (ds ++ ["invalid-escape"%string])
-      | _ => ScanCrash "TypeError: int(None, 16)" (ds ++ ["invalid-escape"%string])
+      | _ => ScanUnterminated (ds ++ bad_escape)
       end
   | c :: rest =>
+      (* one step of the quoted_string loop on an ordinary position *)
+      let norm acc ds :=
+        if c =? q then ScanOk (rev acc) ds rest
+        else if c =? 92 then scan q SBack acc ds rest
+        else scan q SNorm (c :: acc) ds rest in
       match st with
-      | SNorm =>
-          if c =? q then ScanOk (rev acc) ds rest
-          else if c =? 92 then scan q SBack acc ds rest
-          else scan q SNorm (c :: acc) ds rest
+      | SNorm => norm acc ds
       | SBack =>
           let l := esc_lower c in
           if l =? 110 then scan q SNorm (10 :: acc) ds rest
@@ -304,20 +313,20 @@ Fixpoint scan (q : N) (st : sstate) (acc : list N) (ds : list string) (text : li
           else if (l =? 92) || (l =? 34) || (l =? 39) || (l =? 47) then scan q SNorm (l :: acc) ds rest
           else if l =? 10 then scan q SNorm acc ds rest
           else if l =? 120 then scan q SXws acc ds rest
-          else scan q SNorm acc (ds ++ ["invalid-escape"%string]) rest
+          else scan q SNorm acc (ds ++ bad_escape) rest
       | SXws =>
           if py_space c then scan q SXws acc ds rest
           else if c =? 59 then scan q SXcomment acc ds rest
           else match hex_val c with
-               | Some d => scan q (SXhex d) acc ds rest
-               | None => ScanCrash "TypeError: int(None, 16)" (ds ++ ["invalid-escape"%string])
+               | Some d => scan q (SXhex c d) acc ds rest
+               | None => norm acc (ds ++ bad_escape)
                end
       | SXcomment =>
           if c =? 10 then scan q SXws acc ds rest else scan q SXcomment acc ds rest
-      | SXhex d =>
+      | SXhex ch d =>
           match hex_val c with
           | Some e => scan q SNorm (16 * d + e :: acc) ds rest
-          | None => ScanCrash "TypeError: int(None, 16)" (ds ++ ["invalid-escape"%string])
+          | None => norm (ch :: acc) (ds ++ bad_escape)
           end
       end
   end.
